@@ -29,6 +29,8 @@ def run_property(prop: str, tier: str = "quick", seed: int = 0, overlay=None, wr
         if tier == "thorough" and hasattr(mod, "thorough"):
             mod.thorough(ctx)
         return ctx.finish()
+    except BrokenPipeError:
+        return 2
     except AnalysisError as e:
         print(f"ANALYSIS-ERROR property={prop} {e}")
         return 2
